@@ -7,6 +7,8 @@ mkdir -p .build/bin evidence replays
 cp /repo/go.sum mc/go.sum
 (cd mc && go build -o ../.build/bin/vbuild ./cmd/vbuild) || exit 1
 # warm: build every property binary once (no run)
-.build/bin/vbuild -repo /repo -verif "$PWD" -out .build/warm -vclock "blockchain,core/ceremony,core/appstate,core/mempool,core/flip,core/upgrade,core/state,common/pushpull,consensus,pengings,protocol" -gostmt "blockchain,core/ceremony,core/appstate,core/mempool,core/flip,core/upgrade,core/state,common/pushpull,consensus,pengings,protocol" || exit 1
-(cd mc && go build -overlay ../.build/warm/overlay.json -o /dev/null ./props/... ) || exit 1
+.build/bin/vbuild -repo /repo -verif "$PWD" -out "$PWD/.build/warm" -vclock "blockchain,core/ceremony,core/appstate,core/mempool,core/flip,core/upgrade,core/state,common/pushpull,consensus,pengings,protocol" -gostmt "blockchain,core/ceremony,core/appstate,core/mempool,core/flip,core/upgrade,core/state,common/pushpull,consensus,pengings,protocol" || exit 1
+(cd maptool && go build -o ../.build/bin/maptool .) || exit 1
+.build/bin/maptool -repo /repo -overlay "$PWD/.build/warm/overlay.json" -out "$PWD/.build/warm" -pkgs "blockchain,core/state,core/validators,core/ceremony,core/appstate,core/mempool,vm,vm/env,vm/wasm,vm/embedded,blockchain/types" || exit 1
+(W="$PWD/.build/warm/overlay.json"; cd mc && go build -overlay "$W" -o /dev/null ./props/... ) || exit 1
 echo setup ok
